@@ -1,5 +1,19 @@
 (* C06, trace level: over every history with distinct request ids, the number of copies of a request put
-   on the wire is at most 1 + MAX_RETRANSMIT. *)
+   on the wire is at most 1 + MAX_RETRANSMIT; exactly one of them is the first transmission (emitted at
+   the admission of the request), every other one is a re-send emitted by a Tick, and the k-th re-send is
+   emitted only when more than k x ACK_TIMEOUT elapsed since the first transmission.
+
+   Method: potential functions.  For a fixed request id let
+     a = copies emitted so far by events other than Tick (admissions),
+     t = copies emitted so far by Tick events (re-sends),
+     S = number of [Send id] events so far.
+   Then in every reachable state
+     a + (number of requests with this id still waiting for admission)       <= S
+     t + (sum over the pending entries of id of max_rt - p_count)            <= max_rt * a
+     (number of pending entries of id)                                       <= a
+     every pending entry of id has p_count <= t.
+   Each line is kept by every step of the model; no uniqueness hypothesis is needed for that.  With
+   distinct request ids S <= 1, which gives the bound and makes the last line an equality. *)
 From Coq Require Import ZArith List Bool Lia.
 From GoCoap Require Import Retx.Model Retx.Proofs.
 Import ListNotations.
@@ -21,30 +35,446 @@ Proof.
   - destruct (Z.eqb_spec i id) as [->|_]; [exfalso; apply H; left; reflexivity|]. apply IH. intros F; apply H; right; exact F.
   - apply IH. intros F; apply H; right; exact F.
 Qed.
+Lemma cnt_cons_copy id i l : cnt id (Copy i :: l) = (if i =? id then 1 else 0) + cnt id l.
+Proof. unfold cnt. cbn [filter is_copy]. destruct (i =? id); cbn [length]; lia. Qed.
+Lemma cnt_one id i : cnt id [Copy i] = if i =? id then 1 else 0.
+Proof. rewrite cnt_cons_copy. unfold cnt. cbn. lia. Qed.
+Lemma cnt_nil id : cnt id [] = 0.
+Proof. reflexivity. Qed.
+Lemma cnt_pos_in id l : In (Copy id) l -> 1 <= cnt id l.
+Proof.
+  induction l as [|e l IH]; intros H; [destruct H|]. destruct H as [->|H].
+  - rewrite cnt_cons_copy, Z.eqb_refl. pose proof (cnt_nonneg id l). lia.
+  - specialize (IH H). destruct e as [i|p]; [rewrite cnt_cons_copy; destruct (i =? id); lia|exact IH].
+Qed.
 
-(* ---------- the phase of one request id ---------- *)
-
-Definition ids_of (l : list rq) : list Z := map q_id l.
-Definition pids_of (l : list pend) : list Z := map p_id l.
-
-Definition count_of (l : list pend) (id : Z) : Z :=
-  match find (fun p => p_id p =? id) l with Some p => p_count p | None => 0 end.
-
-(* global well-formedness kept by every step *)
-Record wf (s : st) : Prop := {
-  wf_req_nodup : NoDup (ids_of (reqs s));
-  wf_pend_nodup : NoDup (pids_of (pending s));
-  wf_pend_sent : forall p, In p (pending s) -> exists q, In q (reqs s) /\ q_id q = p_id p /\ is_wait_slot (q_st q) = false
-}.
-
-Inductive phase (c : cfg) (id : Z) (s : st) (n : Z) : Prop :=
-| ph_unsent : ~ In id (ids_of (reqs s)) -> has_pend (pending s) id = false -> n = 0 -> phase c id s n
-| ph_waiting : (exists q, In q (reqs s) /\ q_id q = id /\ is_wait_slot (q_st q) = true) ->
-               has_pend (pending s) id = false -> n = 0 -> phase c id s n
-| ph_pending : has_pend (pending s) id = true -> n = 1 + count_of (pending s) id ->
-               0 <= count_of (pending s) id <= max_rt c -> phase c id s n
-| ph_quiet : In id (ids_of (reqs s)) -> quiet id s -> n <= 1 + max_rt c -> phase c id s n.
-
-Definition sends_id (id : Z) (e : ev) : bool := match e with Send i _ _ => i =? id | _ => false end.
+(* request ids submitted by a history; how often [id] is among them *)
 Fixpoint send_ids (evs : list ev) : list Z :=
   match evs with [] => [] | Send i _ _ :: r => i :: send_ids r | _ :: r => send_ids r end.
+
+Definition nsend1 (id : Z) (e : ev) : Z := match e with Send i _ _ => if i =? id then 1 else 0 | _ => 0 end.
+Fixpoint nsend (id : Z) (evs : list ev) : Z :=
+  match evs with [] => 0 | e :: r => nsend1 id e + nsend id r end.
+
+Lemma nsend_notin id evs : ~ In id (send_ids evs) -> nsend id evs = 0.
+Proof.
+  induction evs as [|e evs IH]; intros H; [reflexivity|]. cbn [nsend].
+  destruct e as [i tok dl|ms| |i|i|i code|i code pmid|i]; cbn [send_ids nsend1] in *; try (rewrite IH; [reflexivity|exact H]).
+  destruct (Z.eqb_spec i id) as [E|E]; [exfalso; apply H; left; exact E|].
+  rewrite IH; [reflexivity|]. intros F; apply H; right; exact F.
+Qed.
+
+Lemma nsend_nodup id evs : NoDup (send_ids evs) -> nsend id evs <= 1.
+Proof.
+  induction evs as [|e evs IH]; intros H; [cbn; lia|]. cbn [nsend].
+  destruct e as [i tok dl|ms| |i|i|i code|i code pmid|i]; cbn [send_ids nsend1] in *; try (specialize (IH H); lia).
+  inversion H as [|x l Hx Hl]; subst. destruct (Z.eqb_spec i id) as [E|E].
+  - subst i. rewrite (nsend_notin _ _ Hx). lia.
+  - specialize (IH Hl). lia.
+Qed.
+
+(* copies emitted by Tick events (re-sends) and by all other events (first transmissions) *)
+Definition is_tick (e : ev) : bool := match e with Tick => true | _ => false end.
+Fixpoint cnt_sel (sel : ev -> bool) (id : Z) (evs : list ev) (os : list obs) : Z :=
+  match evs, os with
+  | e :: evs', o :: os' => (if sel e then cnt id (o_emit o) else 0) + cnt_sel sel id evs' os'
+  | _, _ => 0
+  end.
+Definition firsts (id : Z) (evs : list ev) (os : list obs) : Z := cnt_sel (fun e => negb (is_tick e)) id evs os.
+Definition resends (id : Z) (evs : list ev) (os : list obs) : Z := cnt_sel is_tick id evs os.
+
+Lemma firsts_cons c id s e evs :
+  firsts id (e :: evs) (outs c s (e :: evs)) =
+  (if is_tick e then 0 else cnt id (o_emit (snd (step c s e)))) + firsts id evs (outs c (fst (step c s e)) evs).
+Proof. rewrite outs_cons. unfold firsts. cbn [cnt_sel]. destruct (is_tick e); reflexivity. Qed.
+Lemma resends_cons c id s e evs :
+  resends id (e :: evs) (outs c s (e :: evs)) =
+  (if is_tick e then cnt id (o_emit (snd (step c s e))) else 0) + resends id evs (outs c (fst (step c s e)) evs).
+Proof. rewrite outs_cons. unfold resends. cbn [cnt_sel]. reflexivity. Qed.
+
+Lemma copies_split c id : forall evs s,
+  cnt_obs id (outs c s evs) = firsts id evs (outs c s evs) + resends id evs (outs c s evs).
+Proof.
+  induction evs as [|e evs IH]; intros s; [reflexivity|].
+  rewrite firsts_cons, resends_cons, outs_cons. cbn [cnt_obs]. rewrite IH. destruct (is_tick e); lia.
+Qed.
+
+(* ---------- the potentials ---------- *)
+
+Fixpoint nwait (id : Z) (l : list rq) : Z :=
+  match l with [] => 0 | q :: r => (if (q_id q =? id) && is_wait_slot (q_st q) then 1 else 0) + nwait id r end.
+Fixpoint credit (c : cfg) (id : Z) (l : list pend) : Z :=
+  match l with [] => 0 | p :: r => (if p_id p =? id then max_rt c - p_count p else 0) + credit c id r end.
+Fixpoint nent (id : Z) (l : list pend) : Z :=
+  match l with [] => 0 | p :: r => (if p_id p =? id then 1 else 0) + nent id r end.
+Definition cnt_le (id t : Z) (l : list pend) : Prop := Forall (fun p => p_id p = id -> p_count p <= t) l.
+
+Lemma nwait_app id a b : nwait id (a ++ b) = nwait id a + nwait id b.
+Proof. induction a as [|q a IH]; cbn [app nwait]; [reflexivity|]. rewrite IH. lia. Qed.
+Lemma nwait_nonneg id l : 0 <= nwait id l.
+Proof. induction l as [|q l IH]; cbn [nwait]; [lia|]. destruct ((q_id q =? id) && is_wait_slot (q_st q)); lia. Qed.
+
+(* a map over the requests that keeps ids and never produces WaitSlot does not add waiters *)
+Lemma nwait_map_le id g l :
+  (forall q, q_id (g q) = q_id q) ->
+  (forall q, is_wait_slot (q_st (g q)) = true -> is_wait_slot (q_st q) = true) ->
+  nwait id (map g l) <= nwait id l.
+Proof.
+  intros Hid Hw. induction l as [|q l IH]; cbn [map nwait]; [lia|]. rewrite Hid.
+  destruct (q_id q =? id); cbn [andb]; [|lia].
+  destruct (is_wait_slot (q_st (g q))) eqn:E; [rewrite (Hw _ E); lia|]. destruct (is_wait_slot (q_st q)); lia.
+Qed.
+
+Lemma nwait_set_status_le id l id' f :
+  (forall q, q_id (f q) = q_id q) ->
+  (forall q, is_wait_slot (q_st (f q)) = true -> is_wait_slot (q_st q) = true) ->
+  nwait id (set_status l id' f) <= nwait id l.
+Proof.
+  intros Hid Hw. unfold set_status. apply nwait_map_le.
+  - intros q. destruct (q_id q =? id'); [apply Hid|reflexivity].
+  - intros q. destruct (q_id q =? id'); [apply Hw|auto].
+Qed.
+
+Lemma nwait_admitted id l : nwait id (set_status l id (fun x => with_st x WaitAck)) = 0.
+Proof.
+  unfold set_status. induction l as [|q l IH]; cbn [map nwait]; [reflexivity|]. rewrite IH.
+  destruct (Z.eqb_spec (q_id q) id) as [E|E].
+  - cbn [with_st q_id q_st is_wait_slot]. rewrite andb_false_r. reflexivity.
+  - apply Z.eqb_neq in E. rewrite E. reflexivity.
+Qed.
+
+Lemma nwait_in id l q : In q l -> q_id q = id -> is_wait_slot (q_st q) = true -> 1 <= nwait id l.
+Proof.
+  intros Hin Hid Hw. induction l as [|x l IH]; [destruct Hin|]. cbn [nwait].
+  pose proof (nwait_nonneg id l) as N. destruct Hin as [->|Hin].
+  - apply Z.eqb_eq in Hid. rewrite Hid, Hw. cbn [andb]. lia.
+  - specialize (IH Hin). destruct ((q_id x =? id) && is_wait_slot (q_st x)); lia.
+Qed.
+
+Lemma settle_list_map l : fst (settle_list l) = map (fun q => fst (settle_rq q)) l.
+Proof.
+  induction l as [|q l IH]; cbn [settle_list map]; [reflexivity|].
+  destruct (settle_rq q) as [q' a]. destruct (settle_list l) as [l' b]. cbn [fst] in *. rewrite IH. reflexivity.
+Qed.
+
+Lemma nwait_settle id l : nwait id (fst (settle_list l)) <= nwait id l.
+Proof.
+  rewrite settle_list_map. apply nwait_map_le; intros q; unfold settle_rq;
+    destruct (q_st q) eqn:E; try (cbn [fst]; rewrite ?E; auto; fail);
+    destruct (q_buf q); cbn [fst with_st q_id q_st is_wait_slot]; rewrite ?E; auto; discriminate.
+Qed.
+
+Lemma credit_app c id a b : credit c id (a ++ b) = credit c id a + credit c id b.
+Proof. induction a as [|p a IH]; cbn [app credit]; [reflexivity|]. rewrite IH. lia. Qed.
+Lemma nent_app id a b : nent id (a ++ b) = nent id a + nent id b.
+Proof. induction a as [|p a IH]; cbn [app nent]; [reflexivity|]. rewrite IH. lia. Qed.
+Lemma nent_nonneg id l : 0 <= nent id l.
+Proof. induction l as [|p l IH]; cbn [nent]; [lia|]. destruct (p_id p =? id); lia. Qed.
+Lemma credit_nonneg c id l : Forall (pend_ok c) l -> 0 <= credit c id l.
+Proof. induction 1 as [|p l Hp _ IH]; cbn [credit]; [lia|]. unfold pend_ok in Hp. destruct (p_id p =? id); lia. Qed.
+
+Lemma credit_filter_le c id f l : Forall (pend_ok c) l -> credit c id (filter f l) <= credit c id l.
+Proof.
+  induction 1 as [|p l Hp _ IH]; cbn [filter credit]; [lia|]. unfold pend_ok in Hp.
+  destruct (f p); cbn [credit]; destruct (p_id p =? id); lia.
+Qed.
+Lemma nent_filter_le id f l : nent id (filter f l) <= nent id l.
+Proof.
+  induction l as [|p l IH]; cbn [filter nent]; [lia|].
+  destruct (f p); cbn [nent]; destruct (p_id p =? id); lia.
+Qed.
+
+Lemma credit_in c id l p : Forall (pend_ok c) l -> In p l -> p_id p = id -> max_rt c - p_count p <= credit c id l.
+Proof.
+  intros H Hin Hid. induction H as [|x l Hx Hl IH]; [destruct Hin|]. cbn [credit].
+  pose proof (credit_nonneg c id l Hl) as N. unfold pend_ok in Hx. destruct Hin as [->|Hin].
+  - apply Z.eqb_eq in Hid. rewrite Hid. lia.
+  - specialize (IH Hin). destruct (p_id x =? id); lia.
+Qed.
+Lemma nent_in id l p : In p l -> p_id p = id -> 1 <= nent id l.
+Proof.
+  intros Hin Hid. induction l as [|x l IH]; [destruct Hin|]. cbn [nent].
+  pose proof (nent_nonneg id l) as N. destruct Hin as [->|Hin].
+  - apply Z.eqb_eq in Hid. rewrite Hid. lia.
+  - specialize (IH Hin). destruct (p_id x =? id); lia.
+Qed.
+
+Definition aged (ms : Z) (p : pend) : pend :=
+  {| p_id := p_id p; p_elapsed := p_elapsed p + ms;
+     p_dl := match p_dl p with Some d => Some (d - ms) | None => None end; p_count := p_count p |}.
+Lemma credit_aged c id ms l : credit c id (map (aged ms) l) = credit c id l.
+Proof. induction l as [|p l IH]; cbn [map credit aged p_id p_count]; [reflexivity|]. rewrite IH. reflexivity. Qed.
+Lemma nent_aged id ms l : nent id (map (aged ms) l) = nent id l.
+Proof. induction l as [|p l IH]; cbn [map nent aged p_id]; [reflexivity|]. rewrite IH. reflexivity. Qed.
+Lemma cnt_le_aged id t ms l : cnt_le id t l -> cnt_le id t (map (aged ms) l).
+Proof. unfold cnt_le. induction 1 as [|p l Hp _ IH]; cbn [map]; constructor; [exact Hp|exact IH]. Qed.
+
+Lemma cnt_le_mono id t t' l : t <= t' -> cnt_le id t l -> cnt_le id t' l.
+Proof. intros Ht H. unfold cnt_le in *. eapply Forall_impl; [|exact H]. intros p Hp E. specialize (Hp E). lia. Qed.
+
+(* one pass of CheckExpirations over the pending table *)
+Lemma tick_all_pot c id t l : Forall (pend_ok c) l -> cnt_le id t l ->
+  cnt id (snd (tick_all c l)) + credit c id (fst (tick_all c l)) <= credit c id l /\
+  nent id (fst (tick_all c l)) <= nent id l /\
+  cnt_le id (t + cnt id (snd (tick_all c l))) (fst (tick_all c l)) /\
+  cnt id (snd (tick_all c l)) <= nent id l.
+Proof.
+  intros Hok. induction Hok as [|p r Hp Hr IH]; intros Hle; cbn [tick_all].
+  - cbn [fst snd credit nent]. rewrite cnt_nil. repeat split; try lia. constructor.
+  - inversion Hle as [|? ? Hlp Hlr]; subst. destruct (IH Hlr) as [I1 [I2 [I3 I4]]]. clear IH.
+    destruct (tick_all c r) as [r' e']. cbn [fst snd] in *.
+    pose proof (cnt_nonneg id e') as Ne. unfold pend_ok in Hp.
+    destruct (tick_entry c p) as [[p'|] b] eqn:E.
+    + destruct b.
+      * destruct (tick_entry_resend _ _ _ E) as [R1 [R2 [R3 [R4 _]]]].
+        cbn [fst snd credit nent]. rewrite cnt_cons_copy, R4, R3.
+        destruct (Z.eqb_spec (p_id p) id) as [Ei|Ei].
+        -- repeat split; try lia. constructor.
+           ++ intros _. specialize (Hlp Ei). lia.
+           ++ apply (cnt_le_mono id (t + cnt id e')); [lia|exact I3].
+        -- repeat split; try lia. constructor; [intros F; rewrite R4 in F; contradiction|].
+           apply (cnt_le_mono id (t + cnt id e')); [lia|exact I3].
+      * assert (p' = p) as ->.
+        { unfold tick_entry in E.
+          destruct ((match p_dl p with Some d => d <? 0 | None => false end) || (p_count p >=? max_rt c)); [discriminate|].
+          destruct (ack_ms c * (p_count p + 1) <? p_elapsed p); [discriminate|]. injection E as <-. reflexivity. }
+        cbn [fst snd credit nent]. destruct (p_id p =? id); repeat split; try lia;
+          (constructor; [intros Ei; specialize (Hlp Ei); lia|exact I3]).
+    + replace (match b with true => (r', e') | false => (r', e') end) with (r', e') by (destruct b; reflexivity).
+      cbn [fst snd credit nent]. destruct (p_id p =? id); repeat split; try lia; exact I3.
+Qed.
+
+Lemma tick_all_copy_in c id l : In (Copy id) (snd (tick_all c l)) ->
+  exists p p', In p l /\ p_id p = id /\ tick_entry c p = (Some p', true).
+Proof.
+  induction l as [|p r IH]; cbn [tick_all]; [intros []|].
+  destruct (tick_all c r) as [r' e']. cbn [snd] in IH.
+  destruct (tick_entry c p) as [[p'|] b] eqn:E.
+  - destruct b; cbn [snd].
+    + intros [H|H].
+      * injection H as H. exists p, p'. destruct (tick_entry_resend _ _ _ E) as [_ [_ [_ [R4 _]]]].
+        repeat split; [left; reflexivity|congruence|exact E].
+      * destruct (IH H) as [x [x' [Hin Hx]]]. exists x, x'. split; [right; exact Hin|exact Hx].
+    + intros H. destruct (IH H) as [x [x' [Hin Hx]]]. exists x, x'. split; [right; exact Hin|exact Hx].
+  - destruct b; cbn [snd]; intros H; destruct (IH H) as [x [x' [Hin Hx]]]; exists x, x'; (split; [right; exact Hin|exact Hx]).
+Qed.
+
+(* ---------- the invariant ---------- *)
+
+Record inv (c : cfg) (id : Z) (s : st) (a t S : Z) : Prop := {
+  inv_adm : a + nwait id (reqs s) <= S;
+  inv_rtx : t + credit c id (pending s) <= max_rt c * a;
+  inv_ent : nent id (pending s) <= a;
+  inv_cnt : cnt_le id t (pending s);
+  inv_t : 0 <= t
+}.
+
+Lemma inv_init c id : inv c id init 0 0 0.
+Proof. constructor; cbn; try lia. constructor. Qed.
+
+(* requests: no new waiter; pending: a sublist obtained by filtering *)
+Lemma inv_shrink c id s a t S l' f :
+  inv_count c s -> inv c id s a t S -> nwait id l' <= nwait id (reqs s) ->
+  inv c id {| reqs := l'; pending := filter f (pending s) |} a t S.
+Proof.
+  intros Hc [I1 I2 I3 I4 I5] Hl. constructor; cbn [reqs pending].
+  - lia.
+  - pose proof (credit_filter_le c id f _ Hc). lia.
+  - pose proof (nent_filter_le id f (pending s)). lia.
+  - apply filter_Forall. exact I4.
+  - exact I5.
+Qed.
+
+Lemma inv_reqs c id s a t S l' :
+  inv c id s a t S -> nwait id l' <= nwait id (reqs s) ->
+  inv c id {| reqs := l'; pending := pending s |} a t S.
+Proof. intros [I1 I2 I3 I4 I5] Hl. constructor; cbn [reqs pending]; try assumption. lia. Qed.
+
+Lemma st_eta s : s = {| reqs := reqs s; pending := pending s |}.
+Proof. destruct s; reflexivity. Qed.
+
+(* one admission *)
+Lemma inv_admit_one c id s q a t S :
+  0 <= max_rt c -> first_waiting (reqs s) = Some q -> inv c id s a t S ->
+  inv c id {| reqs := set_status (reqs s) (q_id q) (fun x => with_st x WaitAck);
+              pending := pending s ++ [{| p_id := q_id q; p_elapsed := 0; p_dl := q_dl q; p_count := 0 |}] |}
+      (a + (if q_id q =? id then 1 else 0)) t S.
+Proof.
+  intros Hm Fw [I1 I2 I3 I4 I5]. destruct (first_waiting_in _ _ Fw) as [Hin Hw].
+  constructor; cbn [reqs pending]; try exact I5.
+  - destruct (Z.eqb_spec (q_id q) id) as [E|E].
+    + rewrite E, nwait_admitted. pose proof (nwait_in id _ q Hin E Hw). lia.
+    + pose proof (nwait_set_status_le id (reqs s) (q_id q) (fun x => with_st x WaitAck)
+                    (fun x => eq_refl) (fun x (H : is_wait_slot (q_st (with_st x WaitAck)) = true) =>
+                       False_ind _ (Bool.diff_false_true H))). lia.
+  - rewrite credit_app. cbn [credit p_id p_count]. destruct (q_id q =? id); lia.
+  - rewrite nent_app. cbn [nent p_id]. destruct (q_id q =? id); lia.
+  - unfold cnt_le in *. apply Forall_app; split; [exact I4|]. constructor; [|constructor]. cbn [p_count]. intros _. exact I5.
+Qed.
+
+Lemma admit_inv c id : 0 <= max_rt c -> forall fuel s acc a t S,
+  inv c id s (a + cnt id acc) t S ->
+  inv c id (fst (admit_waiters fuel c s acc)) (a + cnt id (snd (admit_waiters fuel c s acc))) t S.
+Proof.
+  intros Hm. induction fuel as [|f IH]; intros s acc a t S H; cbn [admit_waiters]; [exact H|].
+  destruct (held s <? nstart c); [|exact H].
+  destruct (first_waiting (reqs s)) as [q|] eqn:Fw; [|exact H].
+  apply IH. rewrite cnt_app, cnt_one, Z.add_assoc. apply inv_admit_one; assumption.
+Qed.
+
+Lemma admit_all_inv c id s a t S : 0 <= max_rt c -> inv c id s a t S ->
+  inv c id (fst (admit_all c s)) (a + cnt id (snd (admit_all c s))) t S.
+Proof.
+  intros Hm H. unfold admit_all. apply admit_inv; [exact Hm|]. rewrite cnt_nil, Z.add_0_r. exact H.
+Qed.
+
+Lemma wake_inv c id s i a t S : inv_count c s -> inv c id s a t S -> inv c id (wake s i) a t S.
+Proof.
+  intros Hc H. unfold wake. destruct (has_pend (pending s) i); [|exact H].
+  unfold del_pend. apply inv_shrink; [exact Hc|exact H|]. apply nwait_set_status_le.
+  - intros q. destruct (is_wait_ack (q_st q)); reflexivity.
+  - intros q. destruct (is_wait_ack (q_st q)); [cbn; discriminate|auto].
+Qed.
+
+Lemma deliver_inv c id s i cd a t S : inv c id s a t S -> inv c id (deliver s i cd) a t S.
+Proof.
+  intros H. unfold deliver. apply inv_reqs; [exact H|]. apply nwait_set_status_le.
+  - intros q. destruct (is_done (q_st q)); [reflexivity|]. destruct (q_buf q); reflexivity.
+  - intros q. destruct (is_done (q_st q)); [auto|]. destruct (q_buf q); auto.
+Qed.
+
+Lemma settle_inv c id s a t S : inv c id s a t S -> inv c id (fst (settle s)) a t S.
+Proof.
+  intros H. unfold settle. pose proof (nwait_settle id (reqs s)) as N.
+  destruct (settle_list (reqs s)) as [l ret]. cbn [fst] in *. apply inv_reqs; assumption.
+Qed.
+
+Lemma step_inv c id s e a t S :
+  0 <= max_rt c -> inv_count c s -> inv c id s a t S ->
+  inv c id (fst (step c s e))
+      (a + (if is_tick e then 0 else cnt id (o_emit (snd (step c s e)))))
+      (t + (if is_tick e then cnt id (o_emit (snd (step c s e))) else 0))
+      (S + nsend1 id e).
+Proof.
+  intros Hm Hc H.
+  assert (Hwake : forall i, inv_count c (wake s i)).
+  { intros i. unfold wake. destruct (has_pend (pending s) i); [|exact Hc]. unfold inv_count, del_pend; cbn [pending]. apply filter_Forall; exact Hc. }
+  destruct e as [i tok dl|ms| |i|i|i code|i code pmid|i]; cbn [step is_tick nsend1]; try rewrite (Z.add_0_r t); try rewrite (Z.add_0_r S).
+  - (* Send *)
+    match goal with |- context [admit_all c ?s1] => assert (Q : inv c id s1 a t (S + (if i =? id then 1 else 0))) end.
+    { destruct H as [I1 I2 I3 I4 I5]. constructor; cbn [reqs pending]; try assumption.
+      rewrite nwait_app. cbn [nwait q_id q_st is_wait_slot]. rewrite andb_true_r. destruct (i =? id); lia. }
+    pose proof (admit_all_inv c id _ _ _ _ Hm Q) as G. destruct (admit_all c _) as [s2 em]. exact G.
+  - (* Age *)
+    cbn [fst snd o_emit]. rewrite ?cnt_nil, ?Z.add_0_r. destruct H as [I1 I2 I3 I4 I5].
+    change (map _ (pending s)) with (map (aged ms) (pending s)).
+    constructor; cbn [reqs pending]; [exact I1|rewrite credit_aged; exact I2|rewrite nent_aged; exact I3|apply cnt_le_aged; exact I4|exact I5].
+  - (* Tick *)
+    destruct H as [I1 I2 I3 I4 I5].
+    destruct (tick_all_pot c id t (pending s) Hc I4) as [T1 [T2 [T3 T4]]].
+    destruct (tick_all c (pending s)) as [l em]. cbn [fst snd o_emit] in *.
+    pose proof (cnt_nonneg id em). constructor; cbn [reqs pending]; try assumption; lia.
+  - (* Ack *)
+    pose proof (settle_inv c id _ _ _ _ (wake_inv c id s i a t S Hc H)) as Q.
+    destruct (settle (wake s i)) as [s2 ret]. cbn [fst] in Q.
+    pose proof (admit_all_inv c id _ _ _ _ Hm Q) as G. destruct (admit_all c s2) as [s3 em]. exact G.
+  - (* Rst *)
+    pose proof (settle_inv c id _ _ _ _ (wake_inv c id s i a t S Hc H)) as Q.
+    destruct (settle (wake s i)) as [s2 ret]. cbn [fst] in Q.
+    pose proof (admit_all_inv c id _ _ _ _ Hm Q) as G. destruct (admit_all c s2) as [s3 em]. exact G.
+  - (* Piggy *)
+    pose proof (settle_inv c id _ _ _ _ (deliver_inv c id _ i code _ _ _ (wake_inv c id s i a t S Hc H))) as Q.
+    destruct (settle (deliver (wake s i) i code)) as [s2 ret]. cbn [fst] in Q.
+    pose proof (admit_all_inv c id _ _ _ _ Hm Q) as G. destruct (admit_all c s2) as [s3 em]. exact G.
+  - (* Sep *)
+    pose proof (settle_inv c id _ _ _ _ (deliver_inv c id s i code _ _ _ H)) as Q.
+    destruct (settle (deliver s i code)) as [s2 ret]. cbn [fst snd o_emit] in *.
+    replace (cnt id [BareAck pmid]) with 0 by reflexivity. rewrite ?Z.add_0_r. exact Q.
+  - (* Cancel *)
+    destruct (find_rq (reqs s) i) as [q|]; [|cbn [fst snd o_emit]; rewrite ?cnt_nil, ?Z.add_0_r; exact H].
+    destruct (is_done (q_st q)); [cbn [fst snd o_emit]; rewrite ?cnt_nil, ?Z.add_0_r; exact H|].
+    match goal with |- context [admit_all c ?s1] => assert (Q : inv c id s1 a t S) end.
+    { unfold del_pend. apply inv_shrink; [exact Hc|exact H|]. apply nwait_set_status_le; [reflexivity|intros x; cbn; discriminate]. }
+    pose proof (admit_all_inv c id _ _ _ _ Hm Q) as G. destruct (admit_all c _) as [s2 em]. exact G.
+Qed.
+
+Lemma run_inv c id : 0 <= max_rt c -> forall evs s a t S,
+  inv_count c s -> inv c id s a t S ->
+  inv c id (final c s evs) (a + firsts id evs (outs c s evs)) (t + resends id evs (outs c s evs)) (S + nsend id evs).
+Proof.
+  intros Hm. induction evs as [|e evs IH]; intros s a t S Hc H.
+  - cbn. rewrite !Z.add_0_r. exact H.
+  - rewrite final_cons, firsts_cons, resends_cons. cbn [nsend]. rewrite !Z.add_assoc.
+    apply IH; [apply step_inv_count; assumption|apply step_inv; assumption].
+Qed.
+
+Lemma reach_inv c id evs : 0 <= max_rt c ->
+  inv c id (final c init evs) (firsts id evs (outs c init evs)) (resends id evs (outs c init evs)) (nsend id evs).
+Proof. intros Hm. apply (run_inv c id Hm evs init 0 0 0); [constructor|apply inv_init]. Qed.
+
+(* ---------- the theorems ---------- *)
+
+(* the first transmission happens once, at the admission of the request (an event other than Tick);
+   re-sends (copies emitted by Tick events) exist only after it and there are at most MAX_RETRANSMIT *)
+Theorem first_copy_once : forall c evs id,
+  0 <= max_rt c -> NoDup (send_ids evs) ->
+  firsts id evs (outs c init evs) <= 1 /\
+  resends id evs (outs c init evs) <= max_rt c * firsts id evs (outs c init evs) /\
+  (0 < cnt_obs id (outs c init evs) -> firsts id evs (outs c init evs) = 1).
+Proof.
+  intros c evs id Hm Hnd. destruct (reach_inv c id evs Hm) as [I1 I2 I3 I4 I5].
+  pose proof (nsend_nodup id evs Hnd) as Ns.
+  pose proof (nwait_nonneg id (reqs (final c init evs))) as Nw.
+  pose proof (credit_nonneg c id _ (count_bounded c evs Hm)) as Nc.
+  pose proof (nent_nonneg id (pending (final c init evs))) as Ne.
+  rewrite copies_split. repeat split; try lia; intros Hpos; nia.
+Qed.
+
+(* C06, trace level: at most 1 + MAX_RETRANSMIT copies of a request are ever put on the wire *)
+Theorem copies_bounded : forall c evs id,
+  0 <= max_rt c -> NoDup (send_ids evs) ->
+  cnt_obs id (outs c init evs) <= 1 + max_rt c.
+Proof.
+  intros c evs id Hm Hnd. destruct (first_copy_once c evs id Hm Hnd) as [F1 [F2 _]].
+  rewrite copies_split. nia.
+Qed.
+
+(* without the distinctness hypothesis: (1 + MAX_RETRANSMIT) copies per submission of the id *)
+Theorem copies_bounded_general : forall c evs id,
+  0 <= max_rt c -> cnt_obs id (outs c init evs) <= (1 + max_rt c) * nsend id evs.
+Proof.
+  intros c evs id Hm. destruct (reach_inv c id evs Hm) as [I1 I2 I3 I4 I5].
+  pose proof (nwait_nonneg id (reqs (final c init evs))) as Nw.
+  pose proof (credit_nonneg c id _ (count_bounded c evs Hm)) as Nc.
+  rewrite copies_split. nia.
+Qed.
+
+(* a Tick that re-sends request id after the history [pre] emits exactly one copy; it is the (k+1)-th
+   re-send where k is the number of re-sends in [pre]; the entry's counter is k and MORE than
+   (k+1) x ACK_TIMEOUT elapsed since the first transmission *)
+Theorem resend_spacing_trace : forall c pre id,
+  0 <= max_rt c -> NoDup (send_ids pre) ->
+  In (Copy id) (o_emit (snd (step c (final c init pre) Tick))) ->
+  cnt id (o_emit (snd (step c (final c init pre) Tick))) = 1 /\
+  exists p, In p (pending (final c init pre)) /\ p_id p = id /\
+            p_count p = resends id pre (outs c init pre) /\
+            p_count p < max_rt c /\
+            ack_ms c * (resends id pre (outs c init pre) + 1) < p_elapsed p.
+Proof.
+  intros c pre id Hm Hnd. destruct (reach_inv c id pre Hm) as [I1 I2 I3 I4 I5].
+  pose proof (nsend_nodup id pre Hnd) as Ns. pose proof (count_bounded c pre Hm) as Hc.
+  set (s := final c init pre) in *. set (k := resends id pre (outs c init pre)) in *.
+  pose proof (nwait_nonneg id (reqs s)) as Nw.
+  cbn [step]. destruct (tick_all_pot c id k (pending s) Hc I4) as [_ [_ [_ T4]]].
+  pose proof (tick_all_copy_in c id (pending s)) as Tin.
+  destruct (tick_all c (pending s)) as [l em]. cbn [fst snd o_emit] in *.
+  intros Hin. destruct (Tin Hin) as [p [p' [Hp [Hid E]]]].
+  pose proof (cnt_pos_in id em Hin) as C1. pose proof (nent_in id _ p Hp Hid) as N1.
+  split; [lia|]. exists p.
+  destruct (tick_entry_resend _ _ _ E) as [R1 [R2 _]].
+  pose proof (credit_in c id _ p Hc Hp Hid) as Cr.
+  unfold cnt_le in I4. rewrite Forall_forall in I4. specialize (I4 p Hp Hid).
+  assert (Ea : firsts id pre (outs c init pre) = 1) by lia. rewrite Ea in I2.
+  assert (Ek : p_count p = k) by lia.
+  repeat split; try assumption. rewrite <- Ek. exact R2.
+Qed.
